@@ -205,6 +205,9 @@ class KeyCache(t.Generic[P, T]):
         self._root: t.List[t.Any] = []
         self._root[:] = [self._root, self._root, None, None]
         self._lock = RLock()
+        # Keys may be built from `id()`s of the arguments (see `make_converter`), so the
+        # arguments of every cached call must stay alive as long as the entry does.
+        self._keepalive: t.Dict[t.Any, t.Any] = {}
 
         self.full = self.maxsize == 0
 
@@ -216,6 +219,7 @@ class KeyCache(t.Generic[P, T]):
                 return t.cast(T, result)
             result = self.inner_f(*args, **kwargs)
             self.cache[key] = result
+            self._keepalive[key] = (args, kwargs)
             return result
 
         key = self.key_f(*args, **kwargs)
@@ -250,11 +254,14 @@ class KeyCache(t.Generic[P, T]):
                 oldresult = self._root[RESULT]  # type: ignore # noqa: F841 (we want to keep this around for a bit)
                 self._root[KEY] = self._root[RESULT] = None
                 del self.cache[oldkey]
+                self._keepalive.pop(oldkey, None)
                 self.cache[key] = oldroot
+                self._keepalive[key] = (args, kwargs)
             else:
                 last = self._root[PREV]
                 link = [last, self._root, key, result]
                 last[NEXT] = self._root[PREV] = self.cache[key] = link
+                self._keepalive[key] = (args, kwargs)
                 self.full = (len(self.cache) >= self.maxsize)
         return result
 
